@@ -1567,4 +1567,56 @@ example : FaithfulConv rndF32 [some (1 / 3), some (1 / 10), some (2 / 3), none, 
 example : classLogR rndF32 [some (1 / 3), some (1 / 10), some (2 / 3), none, some (1 / 5)]
     (some [0, 1 / 10, 1, 2, 3]) true false = .ok [(0, 2), (0, 1), (1, 2)] := by decide +kernel
 
+theorem scaleVals_eq_aff (a : Int) (x : List Val) : scaleVals a x = x.map (affV (pow2 a) 0) := by
+  unfold scaleVals
+  apply List.map_congr_left
+  intro v _
+  cases v with
+  | none => rfl
+  | some r => simp [affV]
+
+/-- **the constructor in `FIELD` arithmetic under a change of the units by powers of two**
+(`NoUflData`: no sample and no timing is subnormal before or after — the conversions commute with
+the rescaling; `NoUflOn` on the *stored* data): same adjacency or same error,
+natural graph with given timings (`x·2^a`, `t·2^c`), natural graph on the default timings (`x·2^a`),
+horizontal graph (`x·2^a`, any timings: they are not read) -/
+theorem class_f32_pow2_invariant (x : List Val) (a : Int) (missing : Bool)
+    (hx : ∀ r : Rat, some r ∈ x → NoUfl r a) :
+    (∀ (t : List Rat) (c : Int), (∀ r ∈ t, NoUfl r c) →
+      NoUflOn (toField rndF32 x) (t.map rndF32) x.length a c →
+      classLogR rndF32 (scaleVals a x) (some (scaleTimes c t)) missing false
+        = classLogR rndF32 x (some t) missing false) ∧
+    (NoUflOn (toField rndF32 x) ((defaultTimings x.length).map rndF32) x.length a 0 →
+      classLogR rndF32 (scaleVals a x) none missing false
+        = classLogR rndF32 x none missing false) ∧
+    (∀ tm tm' : Option (List Rat),
+      classLogR rndF32 (scaleVals a x) tm' missing true = classLogR rndF32 x tm missing true) := by
+  refine ⟨fun t c ht h => classLogR_scale x t a c missing ⟨hx, ht⟩ h,
+    fun h => classLogR_scale_default x a missing hx h, fun tm tm' => ?_⟩
+  rw [classLogR_horizontal, classLogR_horizontal, toField_scale x a hx, scaleVals_eq_aff]
+  simp only [classLog, List.length_map, hvg_affine_invariant _ _ (pow2 a) 0 (pow2_pos a),
+    isMissing_aff, Bool.not_true, Bool.false_eq_true, if_false]
+
+/-- the same with every hypothesis decided by one executable test (`noUflConvB`, driver request
+`nouflc`): natural graph, given timings rescaled by `2^c` or default timings (`c = 0`) -/
+theorem class_f32_pow2_invariant_decided (x : List Val) (tm : Option (List Rat)) (a c : Int)
+    (missing : Bool) (h : noUflConvB x tm a c = true) :
+    classLogR rndF32 (scaleVals a x) (tm.map (scaleTimes c)) missing false
+      = classLogR rndF32 x tm missing false := by
+  simp only [noUflConvB, Bool.and_eq_true, List.all_eq_true, decide_eq_true_eq] at h
+  obtain ⟨⟨h1, h2⟩, h3⟩ := h
+  have hx : ∀ r : Rat, some r ∈ x → NoUfl r a := fun r hr => (noUflB_iff r a).mp (h1 (some r) hr)
+  cases tm with
+  | some t =>
+    simp only [List.all_eq_true] at h2
+    exact (class_f32_pow2_invariant x a missing hx).1 t c
+      (fun r hr => (noUflB_iff r c).mp (h2 r hr)) h3
+  | none =>
+    have hc : c = 0 := by simpa using h2
+    subst hc
+    exact (class_f32_pow2_invariant x a missing hx).2.1 h3
+
+example : noUflConvB [some (1 / 3), some (1 / 10), some (2 / 3), none, some (1 / 5)]
+    (some [0, 1 / 10, 1, 2, 3]) (-60) 30 = true := by decide +kernel
+
 end Pyunicorn.Visibility
